@@ -225,6 +225,16 @@ def step (s : State) (toks : List String) : State × String :=
       | some t => let t := settle 4 t; (set s i t, showPc t)
       | none => (s, "blocked")
     | _, _ => (s, "bad-op")
+  -- the handler of m will be slow inside a send to several nodes (`SendToChildren`, `SendToChildrenInParallel`,
+  -- `Broadcast`, `Multicast`, `SendToParent`): for the instance and the server a hand-over like any other
+  | ["sendin", i, m, p] =>
+    match i.toNat?, m.toNat? with
+    | some i, some m =>
+      if !(["children", "par", "bcast", "multi", "parent"].contains p) then (s, "bad-op") else
+      match C05.step (get s i) (.accept m) with
+      | some t => let t := settle 4 t; (set s i t, showPc t)
+      | none => (s, "blocked")
+    | _, _ => (s, "bad-op")
   -- a hand-over whose instance lookup happened before the instance was closed: straight to `accept`
   | ["late", i, m] =>
     match i.toNat?, m.toNat? with
